@@ -8,3 +8,4 @@ import Discv5Model.Props.C09
 import Discv5Model.Props.C10
 import Discv5Model.Props.C07
 import Discv5Model.Props.C08
+import Discv5Model.Props.C16
